@@ -15,6 +15,12 @@ pub struct Pe<T>(pub T, pub f64);
 /// generic, Eq when the argument is
 #[derive(Debug, Clone, Copy, PartialEq, Eq)]
 pub struct We<T>(pub T);
+/// float-like (PartialEq only) but dereferences to an Eq type: an assertion made with method-call syntax would auto-deref and pass
+#[derive(Debug, Clone, Copy)]
+pub struct Db(pub u64);
+impl PartialEq for Db { fn eq(&self, o: &Db) -> bool { f64::from_bits(self.0) == f64::from_bits(o.0) } }
+impl core::ops::Deref for Db { type Target = u64; fn deref(&self) -> &u64 { &self.0 } }
+pub fn key_db<T>(_x: &T) -> Db { Db(0) }
 pub fn key_eq<T>(_x: &T) -> u8 { 0 }
 pub fn key_ne<T>(_x: &T) -> NE { NE(0) }
 pub fn key_f<T>(_x: &T) -> f32 { 0.0 }
@@ -36,7 +42,7 @@ CONFIGS = [
     ("#[eq(by = by_b)] #[ord(key = key_ne(&$))]", None),
     ("#[partial_eq(ignore)] #[eq(ignore)]", None),
     ("#[eq(key = key_ne(&$))] #[ord(by = by_o)]", "ne"), ("#[eq(key = key_eq(&$))] #[ord(by = by_o)]", "eq"), ("#[eq(key = key_f(&$))] #[ord(key = key_eq(&$))]", "ne"),
-    ("#[eq(by = by_b)] #[ord(by = by_o)]", None), ("#[eq(key = _eq(&$))]", "ne"),
+    ("#[eq(by = by_b)] #[ord(by = by_o)]", None), ("#[eq(key = _eq(&$))]", "ne"), ("#[eq(key = key_db(&$))]", "ne"), ("#[ord(key = key_db(&$))]", "ne"),
     # a key / by on a less general attribute that PartialEq follows but Eq does not look at: the documented answer is derive_ex's own error
     # (the default implementation of Eq cannot be used), whatever the field type - never an Eq that asserts something `==` does not compare
     ("#[partial_ord(key = key_ne(&$))]", "refuse"), ("#[partial_ord(key = key_eq(&$))]", "refuse"), ("#[partial_ord(by = by_po)]", "refuse"),
@@ -47,7 +53,7 @@ CONFIGS = [
     ("#[eq(by = by_b)] #[partial_eq(key = key_ne(&$))]", "ne"), ("#[ord(key = key_eq(&$))] #[partial_ord(key = key_ne(&$))]", "ne"), ("#[eq(key = key_ne(&$))] #[partial_eq(by = by_b)]", None),
     ("#[eq(key = key_ne(&$))] #[partial_eq(key = key_eq(&$))]", "eq"), ("#[ord(key = key_ne(&$))] #[partial_ord(key = key_eq(&$))]", "eq"), ("#[ord(key = key_ne(&$))] #[partial_ord(by = by_po)]", None),
 ]
-FIELD_TYPES = [("u8", True), ("NE", False), ("f32", False), ("Option<NE>", False), ("Vec<u8>", True), ("T", None)]
+FIELD_TYPES = [("u8", True), ("NE", False), ("f32", False), ("Option<NE>", False), ("Vec<u8>", True), ("T", None), ("Db", False), ("Box<f32>", False)]
 
 
 EXTRA = [  # (derive list, item, must compile)
@@ -68,7 +74,7 @@ def programs(ctx):
     i = 0
     combos = list(itertools.product(CONFIGS, FIELD_TYPES, ("struct", "tuple", "enum", "enum_tuple"), (False, True)))
     if ctx.quick:
-        combos = [c for c in combos if "_eq(" in c[0][0] or "_f(" in c[0][0]][:24] + [c for c in combos if (c[0][1] == "refuse" or ("partial_" in c[0][0] and ("eq(" in c[0][0].replace("partial_eq(", "") or "ord(" in c[0][0].replace("partial_ord(", "")))) and c[1][0] in ("u8", "T") and c[2] in ("struct", "enum_tuple")] + rng.sample(combos, 130) + [c for c in combos if c[2] == "enum_tuple" and c[1][0] in ("u8", "NE") and not c[3]]
+        combos = [c for c in combos if "_eq(" in c[0][0] or "_f(" in c[0][0]][:24] + [c for c in combos if (c[1][0] == "Db" and c[0][0] == "") or "key_db" in c[0][0]][:16] + [c for c in combos if (c[0][1] == "refuse" or ("partial_" in c[0][0] and ("eq(" in c[0][0].replace("partial_eq(", "") or "ord(" in c[0][0].replace("partial_ord(", "")))) and c[1][0] in ("u8", "T") and c[2] in ("struct", "enum_tuple")] + rng.sample(combos, 130) + [c for c in combos if c[2] == "enum_tuple" and c[1][0] in ("u8", "NE") and not c[3]]
     for (attr, comp), (fty, fty_eq), shape, generic_inst_ne in combos:
         generic = fty == "T"
         if generic:
